@@ -27,6 +27,9 @@ type Proc struct {
 	Key    string   `json:"key"`
 	Type   string   `json:"type"` // "" = `processor:` left empty
 	Params []string `json:"params"`
+	Raw    string   `json:"raw_params,omitempty"` // the `parameters:` list as YAML text (zoo only; overrides Params)
+	// Metrics: the processor's `metrics:` section is written, enabled, with every label (zoo only)
+	Metrics bool `json:"metrics,omitempty"`
 }
 
 type StreamRef struct {
@@ -59,6 +62,12 @@ type FlowCfg struct {
 	Procs []Proc `json:"processors"`
 	Req   []Conn `json:"request"`
 	Res   []Conn `json:"response"`
+	// Status = the filter's `status_code` list (nil: none).  Not part of the Coq
+	// rendering: which flows are selected is read from the implementation.
+	Status []int `json:"status_code,omitempty"`
+	// FilterExtra: further lines of the filter section, as YAML text (expressions,
+	// method, headers, query_params, sample_percentage); not part of the Coq rendering either
+	FilterExtra string `json:"filter_extra,omitempty"`
 }
 
 type Config struct {
@@ -154,6 +163,14 @@ func (f *FlowCfg) YAML() string {
 	} else {
 		sb.WriteString("  name: nourl\n")
 	}
+	if len(f.Status) > 0 {
+		var ss []string
+		for _, c := range f.Status {
+			ss = append(ss, fmt.Sprint(c))
+		}
+		fmt.Fprintf(&sb, "  status_code: [%s]\n", strings.Join(ss, ", "))
+	}
+	sb.WriteString(f.FilterExtra)
 	if len(f.Procs) == 0 {
 		sb.WriteString("processors: {}\n")
 	} else {
@@ -162,6 +179,13 @@ func (f *FlowCfg) YAML() string {
 	for i := range f.Procs {
 		p := &f.Procs[i]
 		fmt.Fprintf(&sb, "  %s:\n    processor: %s\n", p.Key, p.Type)
+		if p.Metrics {
+			sb.WriteString("    metrics:\n      enabled: true\n      labels: [flow_name, processor_key, http_method, url, status_code, consumer_tag]\n")
+		}
+		if p.Raw != "" {
+			sb.WriteString("    parameters:\n" + p.Raw)
+			continue
+		}
 		if len(p.Params) > 0 {
 			sb.WriteString("    parameters:\n")
 		}
